@@ -16,6 +16,7 @@ import (
 	"time"
 
 	"github.com/google/osv-scalibr/extractor/filesystem"
+	"github.com/google/osv-scalibr/extractor/filesystem/language/java/archive"
 	"github.com/google/osv-scalibr/extractor/filesystem/list"
 	"github.com/google/osv-scalibr/extractor/filesystem/os/rpm"
 	"github.com/google/osv-scalibr/extractor/filesystem/simplefileapi"
@@ -130,6 +131,8 @@ const maxFixtureBytes = 2_300_000
 
 const rpmTimeout = 2 * time.Second
 
+const archiveMaxOpened = 8 << 20
+
 // fixture is one repository file usable as scanned content.
 type fixture struct {
 	Ext   string // home extractor (whose testdata directory it lives in)
@@ -198,6 +201,13 @@ func newExtractors() []filesystem.Extractor {
 		}
 	}
 	for i, e := range out {
+		if e.Name() == archive.Name {
+			// Tuning knob: the extractor's own budget for inflating inner archives (default
+			// 4 GiB) is lowered so that it can be checked that the budget is enforced.
+			cfg := archive.DefaultConfig()
+			cfg.MaxOpenedBytes = archiveMaxOpened
+			out[i] = archive.New(cfg)
+		}
 		if e.Name() == rpm.Name {
 			// Tuning knob: the default 5 min budget for corrupt BerkeleyDB files (the parser
 			// spins on cyclic page links until the deadline) is shortened; that the deadline is
